@@ -675,8 +675,9 @@ func (p c18) reuse(c *core.C, kind, a, b string) {
 		errF := fresh.UnmarshalControl(b)
 		reused.UnmarshalControl(a)
 		errR := reused.UnmarshalControl(b)
-		if (errF == nil) != (errR == nil) || fresh != reused {
-			c.Failf("architecture: decoding %q into a variable that held %q gives %+v; into a fresh variable %+v", b, a, reused, fresh)
+		// (what a variable holds after a FAILED decode is not specified: untouched, zeroed and partially filled are all seen)
+		if (errF == nil) != (errR == nil) || (errF == nil && fresh != reused) {
+			c.Failf("architecture: decoding %q into a variable that held %q gives %+v (err %v); into a fresh variable %+v (err %v)", b, a, reused, errR, fresh, errF)
 		}
 	default:
 		// results of separate Parse calls must not share mutable state: scribble over
